@@ -2,6 +2,7 @@ package simrt
 
 import (
 	"bytes"
+	"context"
 	"encoding/json"
 	"fmt"
 	"io"
@@ -105,6 +106,11 @@ func serve(n *node, t *Task) {
 	req := httptest.NewRequest(plan.Verb, "http://sim.local"+plan.URL, body)
 	if plan.Body != "" {
 		req.ContentLength = int64(len(plan.Body))
+	}
+	if plan.CancelledRequest {
+		ctx, cancel := context.WithCancel(req.Context())
+		cancel()
+		req = req.WithContext(ctx)
 	}
 	req.Header.Set("X-Sim-Req", plan.ID)
 	if plan.CType != "" {
@@ -225,7 +231,8 @@ func shapeTags(p *ReqPlan) string {
 	var tags []string
 	for _, t := range p.Tags {
 		switch t {
-		case "doubled-slash", "no-leading-slash", "root", "trailing-slash", "param", "hyphen-param", "plain":
+		case "doubled-slash", "no-leading-slash", "root", "trailing-slash", "param", "hyphen-param", "plain",
+			"shadows-earlier-param", "shadows-later-param", "has-literal-sibling":
 			tags = append(tags, t)
 		}
 	}
@@ -259,6 +266,26 @@ type judge struct {
 	// C02); requests derived from it are no longer executed on that engine, so one root cause does not
 	// cascade into the other oracles
 	broken map[string]map[int]bool
+}
+
+func (j *judge) markBroken(engine string, route int) {
+	if j.broken == nil {
+		j.broken = map[string]map[int]bool{}
+	}
+	if j.broken[engine] == nil {
+		j.broken[engine] = map[int]bool{}
+	}
+	j.broken[engine][route] = true
+}
+
+func overlapTag(p *ReqPlan) string {
+	for _, t := range p.Tags {
+		switch t {
+		case "shadows-earlier-param", "shadows-later-param":
+			return t
+		}
+	}
+	return ""
 }
 
 func (j *judge) isBroken(engine string, p *ReqPlan) bool {
@@ -310,14 +337,21 @@ func (j *judge) judgePlan(plan *ReqPlan, o Outcome, group []*ReqPlan, seed uint6
 				j.add("C02", fmt.Sprintf("C02|%s|invoked-twice|%s", o.Engine, shapeTags(plan)), "invoked-twice",
 					fmt.Sprintf("%s %s invoked %d controller methods", plan.Verb, plan.URL, len(o.Calls)), o.Engine, group, plan, seed, outs)
 			}
+			if ex.Outcome == "invoked" && plan.Class == "valid" && len(group) == 1 && overlapTag(plan) != "" && o.Class != "not-served" &&
+				(o.Class != "invoked" || o.Calls[0].Op != ex.OpID) {
+				// the plain request to a literal route that overlaps a parameter route did not reach its method:
+				// the router dispatched the path to the other template
+				reached := o.Class
+				if len(o.Calls) > 0 {
+					reached = "method " + o.Calls[0].Op
+				}
+				j.add("C02", "", "misrouted",
+					fmt.Sprintf("%s %s addresses annotated route %s (template %s, which overlaps a parameter route of the same verb) but the router handed it to another template: %s, status %d", plan.Verb, plan.URL, ex.OpID, j.routes[ex.Route].Path, reached, o.Status), o.Engine, group, plan, seed, outs)
+				j.markBroken(o.Engine, ex.Route)
+				return
+			}
 			if ex.Outcome == "invoked" && o.Class == "not-served" && plan.Class == "valid" && len(group) == 1 {
-				if j.broken == nil {
-					j.broken = map[string]map[int]bool{}
-				}
-				if j.broken[o.Engine] == nil {
-					j.broken[o.Engine] = map[int]bool{}
-				}
-				j.broken[o.Engine][ex.Route] = true
+				j.markBroken(o.Engine, ex.Route)
 			}
 			if ex.Outcome == "invoked" && o.Class == "not-served" {
 				j.add("C02", fmt.Sprintf("C02|%s|not-served|%s", o.Engine, shapeTags(plan)), "not-served",
